@@ -186,7 +186,7 @@ func lockRules() []*Rule {
 		{ID: "LOCK-1", Props: []string{"C06", "C07", "C08", "C17", "C19"}, Min: 6,
 			Doc: "every exported method of *sqlittle.DB that reaches a page read brackets it: RLock error returned, defer RUnlock on the same handle dominates every page-reaching call, no early unlock, no nested lock",
 			Run: runLock1},
-		{ID: "LOCK-2", Props: []string{"C06", "C19"}, Min: 8,
+		{ID: "LOCK-2", Props: []string{"C06", "C19"}, Min: 5,
 			Doc: "who-may-call: Database.RUnlock is called only by bracket defers; the driver reaches page reads only through bracketed methods of sqlittle.DB (and Open)",
 			Run: runLock2},
 		{ID: "LOCK-3", Props: []string{"C06", "C08", "C07", "C09", "C15"}, Min: 1,
@@ -337,6 +337,18 @@ func runLock1(c *Ctx) {
 			api = append(api, f)
 		}
 	}
+	// a freshly extracted transaction wrapper (`db.withSchema(table, func(s) error {…})`) is held to the same
+	// standard as an API method: when its own bracket is valid, calls through it are under the lock
+	for _, fn := range p.ModFuncs() {
+		if p.PkgShort(fn) == "." && inlinable != nil && inlinable(fn) {
+			for _, cs := range callsIn(fn) {
+				if cs.Common().StaticCallee() == rlock {
+					api = append(api, fn) // only wrappers that take the lock themselves; other helpers run inside their caller's bracket
+					break
+				}
+			}
+		}
+	}
 	sort.Slice(api, func(i, j int) bool { return p.FnKey(api[i]) < p.FnKey(api[j]) })
 	for _, m := range api {
 		if !reachPage.Fn(m) {
@@ -405,27 +417,77 @@ func runLock1(c *Ctx) {
 				p.Pos(br.Acquire.Pos()), p.Pos(br.Defer.Pos()))
 		}
 	}
-	for _, m := range pending {
+	// methods without a bracket of their own must reach pages only through bracketed (or, transitively, such safe)
+	// methods; evaluated to a fixpoint so that Select → SelectDone → withSchema resolves whatever the order
+	evalPending := func(m *ssa.Function, report bool) bool {
 		key := p.FnKey(m)
-		if why, ok := lock1Exempt[key]; ok {
-			c.Pass(key, m.Pos(), "exempt: %s", why)
-			continue
-		}
 		ok := true
 		for _, f := range withClosures(m) {
+			if f != m {
+				// a function literal handed straight to a bracketed wrapper runs inside that wrapper's bracket
+				covered := true
+				mcs := makeClosuresOf(f)
+				for _, mc := range mcs {
+					passed := false
+					for _, r := range *mc.Referrers() {
+						if call, isCall := r.(ssa.CallInstruction); isCall {
+							if cal := call.Common().StaticCallee(); cal != nil && bracketed[cal] {
+								passed = true
+								continue
+							}
+						}
+						if _, isDbg := r.(*ssa.DebugRef); isDbg {
+							continue
+						}
+						passed = false
+						break
+					}
+					if !passed {
+						covered = false
+					}
+				}
+				if covered && len(mcs) > 0 {
+					continue
+				}
+			}
 			for _, cs := range callsIn(f) {
 				if !reachPage.Site(cs) {
 					continue
 				}
 				for _, callee := range p.Callees(cs) {
 					if reachPage.Fn(callee) && !bracketed[callee] {
-						c.Fail(key, cs.Pos(), "reaches a page read through %s without holding the lock", p.FnKey(callee))
+						if report {
+							c.Fail(key, cs.Pos(), "reaches a page read through %s without holding the lock", p.FnKey(callee))
+						}
 						ok = false
 					}
 				}
 			}
 		}
-		if ok {
+		return ok
+	}
+	for changed := true; changed; {
+		changed = false
+		for _, m := range pending {
+			if bracketed[m] {
+				continue
+			}
+			if _, exempt := lock1Exempt[p.FnKey(m)]; exempt {
+				continue
+			}
+			if evalPending(m, false) {
+				bracketed[m] = true
+				changed = true
+			}
+		}
+	}
+	for _, m := range pending {
+		key := p.FnKey(m)
+		if why, ok := lock1Exempt[key]; ok {
+			c.Pass(key, m.Pos(), "exempt: %s", why)
+			continue
+		}
+		if bracketed[m] || evalPending(m, true) {
 			c.Pass(key, m.Pos(), "reaches page reads only through bracketed methods")
 		}
 	}
